@@ -62,4 +62,24 @@ def geometryIds : View → List String
       | _ => [])
   | .foreign .. => []
 
+/-- `Collada.save` of a document whose namespace is not the default one: foreign content that already is in the
+    default namespace is parked in a private namespace, the document is moved into the default namespace, the
+    namespace-unaware `core` save runs, and both moves are undone -/
+def saveNs (dflt parked : String) (core : Xml → Xml) (x : Xml) : Xml :=
+  if x.ns = dflt then core x
+  else renameNs parked dflt (renameNs dflt x.ns (core (renameNs x.ns dflt (renameNs dflt parked x))))
+
+/-- the earlier repair, without parking -/
+def saveNsNoPark (dflt : String) (core : Xml → Xml) (x : Xml) : Xml :=
+  if x.ns = dflt then core x else renameNs dflt x.ns (core (renameNs x.ns dflt x))
+
+mutual
+  /-- namespaces of all elements in document order -/
+  def nsList : Xml → List String
+    | .node ns _ _ _ kids => ns :: nsListL kids
+  def nsListL : List Xml → List String
+    | [] => []
+    | x :: xs => nsList x ++ nsListL xs
+end
+
 end Pyc.Ns
